@@ -563,6 +563,9 @@ class PopulationBalanceModel:
 
         #Find size class for nucleated particles
         nRad = np.argmax(self.PSDbounds > nucRadius) - 1
+        #A radius below the smallest size class goes to the first class (index -1 would wrap around to the largest class)
+        if nucRadius < self.PSDbounds[0]:
+            nRad = 0
         dXdt[nRad] += nucRate
 
         return dXdt
@@ -615,6 +618,9 @@ class PopulationBalanceModel:
 
         #Find size class for nucleated particles
         nRad = np.argmax(self.PSDbounds > nucRadius) - 1
+        #A radius below the smallest size class goes to the first class (index -1 would wrap around to the largest class)
+        if nucRadius < self.PSDbounds[0]:
+            nRad = 0
         dXdt[nRad] += nucRate
 
         return dXdt
